@@ -5,6 +5,13 @@ ALL = ["C%02d" % i for i in range(1, 21)]
 
 CHECKS = [
     {
+        "property_id": "C02",
+        "text": "Differential decision on the real system: snapshot-fed clients, the server's rebuilt document (all cache states, cold rebuild of every serverSeq) and a replica that applied every change one by one must agree, for random histories over small snapshot intervals/thresholds with late attachers and further edits; plus the ElementRHT structure correspondence (model = code) and its structural oracle. Theorems used: ElementRHT/RGAList models (tied), C20 cache lemmas.",
+        "note": "PARTIAL: the snapshot codec itself has no Coq model yet; this check is differential (translation-validation style) with the structure models as support.",
+        "category": "translation_validation",
+        "technique": "differential oracle (snapshot-fed vs change-fed vs server rebuild) + structure correspondence",
+    },
+    {
         "property_id": "C01",
         "text": "Coq: generic strong-eventual-consistency theorem; commutation proved for counters (all orders) and for concurrent array inserts on the RGAList model (skip rule, generic over the ticket order, no list invariant); delivery discipline from C04. Tie: RGAList (insert/move/set/delete/purge), ElementRHT and Counter models are run against the real crdt structures on random call sequences every run. Decision for the unproved clauses (object LWW, moves, text, tree): convergence oracle on random real multi-client histories.",
         "note": "PARTIAL proof (see Props/C01.v header). Known finding P13 (array set-by-index after a move) is attributed only through its signature.",
